@@ -104,6 +104,13 @@ Definition px_in_dyn (x c : xval) : res bool :=
   | _ => Raise Unmodelled
   end.
 
+(* any(x is v for v in c): identity with one of the elements (the identity of enum members only is known:
+   one object per class and name) *)
+Definition px_is_member (x v : xval) : res bool :=
+  match v with XMem _ _ _ _ => Ok (x_same_member x v) | _ => Raise Unmodelled end.
+Definition px_any_is (x c : xval) : res bool :=
+  xs <- px_seq_items c ;; r <- mapM (px_is_member x) xs ;; Ok (existsb (fun b => b) r).
+
 (* EnumClass[k] = EnumClass._member_map_[k]: a dict lookup by hash / == of k, KeyError when absent *)
 Fixpoint xmap_get (kv : list (pystr * xval)) (k : pyval) : option xval :=
   match kv with
@@ -166,8 +173,13 @@ Definition x_in_members (E : ecls) (x : xval) (decl : list (pystr * pyval)) : bo
 
 Definition x_is_str (x : xval) : bool := px_isinstance x [K_str].
 
+(* one of the declared member OBJECTS (identity) *)
+Definition is_declared_member (E : ecls) (decl : list (pystr * pyval)) (x : xval) : bool :=
+  existsb (fun m => x_same_member x (member_of E m)) decl.
+
 Definition mx_validate (E : ecls) (decl : list (pystr * pyval)) (x : xval) : res unit :=
-  if negb (x_is_str x && x_in_names x (decl_names decl)) && negb (x_in_members E x decl)
+  if negb (x_is_str x && (negb (px_is_enum_member x) && x_in_names x (decl_names decl)))
+     && negb (is_declared_member E decl x)
   then Raise ValueError else Ok tt.
 
 Definition mx_lookup (E : ecls) (x : xval) : res xval :=
@@ -185,9 +197,6 @@ Definition mx_set (E : ecls) (decl : list (pystr * pyval)) (x : xval) : res xval
    "values: a list of valid values, or an enum.Enum class / members of it; the value is a member or the
    NAME of a member, and is stored as the member": accepted exactly when the candidate is one of the
    declared member OBJECTS, or a plain str that is the name of a declared member. *)
-
-Definition is_declared_member (E : ecls) (decl : list (pystr * pyval)) (x : xval) : bool :=
-  existsb (fun m => x_same_member x (member_of E m)) decl.
 
 Definition mx_doc (E : ecls) (decl : list (pystr * pyval)) (x : xval) : option xval :=
   match x with
@@ -210,19 +219,15 @@ Definition is_cand (x : xval) : bool :=
 Definition decl_in_class (E : ecls) (decl : list (pystr * pyval)) : bool :=
   forallb (fun n => alist_has (ec_members E) n) (decl_names decl).
 
-(* The two confusions a mix-in opens in today's code (both are met by the harness and listed as findings):
-   (a) == confusion: a candidate that is not one of the declared member objects compares equal to one
-       (the raw value "low" / 1 of a member of a str / int mix-in class; a member of another class with
-       an equal value);
-   (b) name confusion: a member (a str through its mix-in) that is not declared but whose VALUE is the
-       name of a declared member.
-   On candidates free of both, code and documentation agree (Fields/EnumMixinProofs.v). *)
-Definition name_hit (decl : list (pystr * pyval)) (x : xval) : bool :=
-  x_is_str x && negb (px_is_enum_member x) && x_in_names x (decl_names decl).
-
-Definition mx_safe (E : ecls) (decl : list (pystr * pyval)) (x : xval) : bool :=
-  negb (negb (is_declared_member E decl x) && negb (name_hit decl x) && x_in_members E x decl) &&
-  negb (px_is_enum_member x && negb (is_declared_member E decl x) && x_is_str x && x_in_names x (decl_names decl)).
+(* A mix-in opens two confusions for a membership test made with == / hash (both were met by the harness in
+   typedpy before its repair, findings C02-mixin-eq-confusion and C02-mixin-name-confusion, now fixed):
+   (a) a candidate that is not one of the declared member objects compares equal to one (the raw value
+       "low" / 1 of a member of a str / int mix-in class; a member of another class with an equal value);
+   (b) a member (a str through its mix-in) that is not declared but whose VALUE is the name of a declared
+       member.
+   Enum._validate now decides a member by identity and looks only a str that is not itself a member up among
+   the declared names, so code and documentation agree on EVERY candidate (Fields/EnumMixinProofs.v);
+   [x_in_members] is what the == test saw and is kept for the statement of that fact. *)
 
 (* structural comparison of outcomes *)
 Definition xval_eqb (a b : xval) : bool :=
